@@ -1,31 +1,56 @@
 #!/usr/bin/env python3
-"""tools/rs2v_glue.py — TRANSLATOR: the "glue" layer of /repo/src  ->  coq/Generated/Glue.v
+"""tools/rs2v_glue.py — TRANSLATOR: the non-loop ("glue") functions of /repo/src  ->  coq/Generated/Glue.v
 
-The glue layer is the set of one-line projection functions of bnum (checked_* = tuple_to_option(overflowing_*),
-wrapping_* = overflowing_*.0, saturating_*, strict_* = option_expect!(checked_*), the inherent add/sub/mul/shl/shr that
-switch on cfg(debug_assertions), max/min/clamp/lt/le/gt/ge, carrying_add/borrowing_sub, the non-loop overflowing_* forms).
-Each such `const fn` of the files in FILES below is re-translated FROM /repo's CURRENT SOURCE ON EVERY RUN into a
+Round 1: the one-line projection functions of bnum (checked_* = tuple_to_option(overflowing_*), wrapping_* =
+overflowing_*.0, saturating_*, strict_* = option_expect!(checked_*), the inherent add/sub/mul/shl/shr that switch on
+cfg(debug_assertions), max/min/clamp/lt/le/gt/ge, carrying_add/borrowing_sub, the non-loop overflowing_* forms).
+Round 2: every other function without a loop of buint/mod.rs, bint/mod.rs (rotate, unbounded shifts, bits, abs, signum,
+midpoint, abs_diff, div_floor/ceil, next_multiple_of, pow, ilog2 ..), const_trait_fillers.rs (div rem neg ne, BInt bit
+operations / eq / cmp), the functions of checked.rs / overflowing.rs with nested early returns or `let mut`
+(bint div_rem_unchecked, overflowing_div(_euclid), overflowing_rem_euclid, overflowing_pow, checked_pow,
+checked_next_multiple_of, checked_next_power_of_two, checked_ilog2), int/unchecked.rs, the operator trait impls of
+int/ops.rs / buint/ops.rs / bint/ops.rs (including Shl / Shr for the twelve primitive amount types) and the num_traits
+forwarders of int/numtraits.rs.
+Each function of the files in FILES / INSTANCES below is re-translated FROM /repo's CURRENT SOURCE ON EVERY RUN into a
 Gallina definition over the hand-written model functions (coq/Model/*.v): a call `x.f(args)` becomes the model function
-`U_f` / `I_f` (by the static type of the receiver) applied to the translated arguments.  coq/Proofs/GlueTie.v proves
-every generated definition equal, for all arguments, to the hand-written model function of the same name — so an edit
-of the Rust source that changes what a glue function delegates to changes the generated definition and breaks a proof
-obligation, while a behaviour-preserving rewrite inside the supported subset still goes through.
+`U_f` / `I_f` (by the static type of the receiver) applied to the translated arguments.  coq/Proofs/GlueTieC*.v prove
+every generated definition equal, for all arguments, to the hand-written model function the property theorems are about
+(one tie file per property: `group_of` finds the property of a function by searching them for `Glue.<name>`) — so an edit
+of the Rust source that changes what a function computes or delegates to changes the generated definition and breaks a
+proof obligation, while a behaviour-preserving rewrite inside the supported subset still goes through.
 
-Supported subset (anything else in an in-scope function: exit 1 with the function name; never a silent skip):
-  statements   let x = e;   let (a, b) = e;   assert!(c);   if c { div_zero!() }   if c { return e; }   return e;
-               #[cfg(debug_assertions)] return e1;  #[cfg(not(debug_assertions))] e2      ->  if dbg then e1 else e2
-  expressions  x.f(args)   Self::f(args) / $BUint::f::<B>(args)   x.0 x.1 x.bits   (a, b)   Some(e) None true false 123
-               tuple_to_option(e)   option_expect!(e, msg)   div_zero!()   Self::CONST / $BUint::CONST / $BInt::CONST
+Supported subset (anything else in an in-scope function: that function becomes a stub and the translator exits 1 for its
+property; never a silent skip, never a guess):
+  statements   let x = e;   let (a, b) = e;   let mut x = e;  x = e;  (straight-line reassignment = shadowing)
+               assert!(c);   use path;   panic!(..); / div_zero!(); / rem_zero!();
+               if c { return e; } / if c { panic } / nested statement-level if .. else if .. whose branches return, panic or
+               fall through (the rest of the function is the continuation of every branch that falls through)
+               if c { x = e1; .. } else { x = e2; .. }  with assignments to `let mut` variables (nested allowed, no return
+               inside)  ->  let x = if c { e1 } else { e2 }  (several variables: a tuple)
+               return e;   #[cfg(debug_assertions)] return e1;  #[cfg(not(debug_assertions))] e2      ->  if dbg then e1 else e2
+               #[cfg(debug_assertions)] let x = e1;  #[cfg(not(debug_assertions))] let x = e2;         ->  let x = if dbg ..
+  expressions  x.f(args)  x.f::<true>(args)  Self::f(args) / $BUint::f::<B>(args)   x.0 x.1 x.bits x.bits.digits[0]   (a, b)
+               Some(e) None true false 123   Ordering::Less/Equal/Greater
+               tuple_to_option(e)   option_expect!(e, msg)   result_expect!(e, msg)   Self::CONST / $BUint::CONST / $BInt::CONST
                if c { a } else { b }   if let P = e { a } else { b }   match e { P | Q => a, _ => b }
-               ! == != < <= > >= || && ^ | & + -   &e (transparent)   unsafe { .. } / { .. } blocks
+               ! == != < <= > >= || && ^ | & + -   `% Self::BITS`   a * b, a + b, a - b on Self (= the inherent mul add sub)
+               &e *e (transparent)   unsafe { .. } / { .. } blocks
                x.to_bits() / Self::from_bits(x) (identity on the digit list; they only change the static type)
-  patterns     Some(x)  None  Ordering::Less|Equal|Greater  true false  _
+               e as ExpType (identity on ExpType, u8, u16; `mod 2^32` on the other primitive integers)
+               ExpType::try_from(prim) (Some exactly when 0 <= x <= u32::MAX)   u32::checked_sub
+               o.unwrap_unchecked() as the whole body: the function is generated at type option (None = undefined behaviour)
+  patterns     Some(x)  None  Ordering::Less|Equal|Greater  true false  _  (true, false) ..
+  functions    inherent / free `fn`s by name; functions of trait impls by `<Trait> for <Type>::<name>`; functions produced by
+               single-arm helper macros (ilog!, checked_ilog!, num_trait_impl!, shift_impl!, try_shift_impl!) by expanding the
+               macro body once per listed invocation (a repetition group is expanded once or dropped), every invocation of
+               such a macro in its file being either expanded or listed as skipped with a reason
 Rust panics are `outcome` (Ret / Panic): an expression that contains a call of an outcome-valued model function is
 sequenced left to right with obind, the last bind being omap when the continuation is pure (so `f(x).0` is
 `omap (fun r => fst r) (F x)` and `(g(x), false)` is `omap (fun r => (r, false)) (G x)`, as in the hand model).
 Functions that are out of scope are listed in the SKIP tables below with the reason; a function of an in-scope macro
 body that is neither wanted nor skipped makes the translator fail (the source grew something the tie does not cover).
-Writes coq/Generated/Glue.v only when the content changes; deterministic."""
+Writes coq/Generated/Glue.v only when the content changes; deterministic.  BNUM_REPO overrides /repo (mutation
+experiments), RS2V_GLUE_OUT the output path (development)."""
 import re, sys, os
 
 REPO = os.environ.get("BNUM_REPO", "/repo")
@@ -55,15 +80,19 @@ def die(msg):
 # scope: (file, macro whose body holds the functions, Self types to instantiate, wanted functions, SKIP table)
 LOOP = "contains a loop (`while`); modelled by hand as a recursion with its own proofs"
 HAND = "not glue: multi-branch algorithm modelled by hand (branch by branch) with its own proofs"
+LOOP2 = "contains a loop (`while`): translated by tools/rs2v_loops.py (Generated/Loops.v, Proofs/LoopsTie*.v)"
+FUEL = "calls the recursive iilog, which the model runs on explicit fuel (result type option (outcome _)): outside the glue vocabulary;"
+REPR = "representation accessor (struct field / struct literal): the identity on the model's digit list, nothing to tie"
+ITER = "Default / Sum / Product (closures, iterator fold): modelled by hand in Model/Ops.v (C17)"
 FILES = [
     ("src/buint/checked.rs", "checked", "U",
      ["checked_add", "checked_add_signed", "checked_sub", "checked_mul", "div_rem", "checked_div", "checked_div_euclid",
-      "checked_rem", "checked_rem_euclid", "checked_neg", "checked_shl", "checked_shr"],
-     {"div_rem_digit": LOOP, "div_rem_unchecked": HAND + " (Model/Div.v U_div_rem_unchecked; indexes digits)",
-      "checked_pow": LOOP, "checked_next_multiple_of": HAND + " (U_checked_next_multiple_of)",
-      "checked_ilog2": HAND + " (Model/Pow.v; calls bits())", "iilog": "recursive; " + HAND,
-      "checked_ilog10": HAND + " (early returns, iilog)", "checked_ilog": HAND + " (early returns, iilog)",
-      "checked_next_power_of_two": HAND + " (Model/Bits.v U_checked_next_power_of_two)"}),
+      "checked_rem", "checked_rem_euclid", "checked_neg", "checked_shl", "checked_shr", "checked_next_multiple_of",
+      "checked_ilog2", "checked_next_power_of_two"],
+     {"div_rem_digit": LOOP2,
+      "div_rem_unchecked": HAND + " (Model/Div.v U_div_rem_unchecked; usize index arithmetic, digits[0], div_rem_digit on a digit)",
+      "checked_pow": LOOP, "iilog": "recursive; " + HAND + " (Model/Pow.v iilog, on explicit fuel)",
+      "checked_ilog10": FUEL + " (Model/Pow.v U_checked_ilog10)", "checked_ilog": FUEL + " (Model/Pow.v U_checked_ilog)"}),
     ("src/buint/wrapping.rs", "wrapping", "U",
      ["wrapping_add", "wrapping_add_signed", "wrapping_sub", "wrapping_mul", "wrapping_div", "wrapping_div_euclid",
       "wrapping_rem", "wrapping_rem_euclid", "wrapping_neg", "wrapping_shl", "wrapping_shr", "wrapping_next_power_of_two"],
@@ -81,10 +110,9 @@ FILES = [
     ("src/int/bigint_helpers.rs", "impls", "UI", ["carrying_add", "borrowing_sub"], {}),
     ("src/bint/checked.rs", "checked", "I",
      ["checked_add", "checked_add_unsigned", "checked_sub", "checked_sub_unsigned", "checked_mul", "checked_div",
-      "checked_div_euclid", "checked_rem", "checked_rem_euclid", "checked_neg", "checked_shl", "checked_shr", "checked_abs"],
-     {"checked_pow": HAND + " (Model/Pow.v I_checked_pow)",
-      "checked_next_multiple_of": HAND + " (early returns; I_checked_next_multiple_of)",
-      "checked_ilog": HAND + " (Model/Pow.v I_checked_ilog)"}),
+      "checked_div_euclid", "checked_rem", "checked_rem_euclid", "checked_neg", "checked_shl", "checked_shr", "checked_abs",
+      "checked_pow", "checked_next_multiple_of"],
+     {"checked_ilog": FUEL + " (Model/Pow.v I_checked_ilog)"}),
     ("src/bint/wrapping.rs", "wrapping", "I",
      ["wrapping_add", "wrapping_add_unsigned", "wrapping_sub", "wrapping_sub_unsigned", "wrapping_mul", "wrapping_div",
       "wrapping_div_euclid", "wrapping_rem", "wrapping_rem_euclid", "wrapping_neg", "wrapping_shl", "wrapping_shr",
@@ -97,16 +125,77 @@ FILES = [
       "overflowing_rem_euclid", "overflowing_neg", "overflowing_shl", "overflowing_shr"],
      {"overflowing_add": LOOP, "overflowing_sub": LOOP, "overflowing_pow": LOOP}),
     ("src/bint/overflowing.rs", "overflowing", "I",
-     ["overflowing_add_unsigned", "overflowing_sub_unsigned", "overflowing_mul", "overflowing_rem", "overflowing_shl",
-      "overflowing_shr", "overflowing_abs"],
-     {"overflowing_add": LOOP, "overflowing_sub": LOOP, "overflowing_neg": LOOP,
-      "div_rem_unchecked": HAND + " (Model/Div.v I_div_rem_unchecked; early return, match on a pair of bools)",
-      "overflowing_div": HAND + " (I_overflowing_div; nested early returns)",
-      "overflowing_div_euclid": HAND + " (I_overflowing_div_euclid; nested early returns)",
-      "overflowing_rem_euclid": HAND + " (I_overflowing_rem_euclid; `let mut` with assignments)",
-      "overflowing_pow": HAND + " (Model/Pow.v I_overflowing_pow; `let mut` with assignments)"}),
-    # a single glue function out of a file that is otherwise loops: macro None = search the whole file, other functions ignored
-    ("src/buint/mod.rs", None, "U", ["unchecked_shr_internal"], {}),
+     ["overflowing_add_unsigned", "overflowing_sub_unsigned", "overflowing_mul", "div_rem_unchecked", "overflowing_div",
+      "overflowing_div_euclid", "overflowing_rem", "overflowing_rem_euclid", "overflowing_shl", "overflowing_shr",
+      "overflowing_abs", "overflowing_pow"],
+     {"overflowing_add": LOOP, "overflowing_sub": LOOP, "overflowing_neg": LOOP}),
+    ("src/buint/const_trait_fillers.rs", "const_trait_fillers", "U", ["ne", "div", "rem"],
+     {"bitand": LOOP2, "bitor": LOOP2, "bitxor": LOOP2, "not": LOOP2, "eq": LOOP2, "cmp": LOOP2}),
+    ("src/bint/const_trait_fillers.rs", "const_trait_fillers", "I",
+     ["bitand", "bitor", "bitxor", "not", "eq", "ne", "cmp", "neg", "div", "rem"], {}),
+    ("src/int/ops.rs", "impls", "UI",
+     [("Add<Self> for $Struct<N>::add", "Add_add"), ("Mul for $Struct<N>::mul", "Mul_mul"), ("Not for &$Struct<N>::not", "Not_ref_not"),
+      ("Shl<ExpType> for $Struct<N>::shl", "Shl_ExpType_shl"), ("Shr<ExpType> for $Struct<N>::shr", "Shr_ExpType_shr"),
+      ("Sub for $Struct<N>::sub", "Sub_sub")], {}),
+    ("src/buint/ops.rs", "ops", "U",
+     [("BitAnd for $BUint<N>::bitand", "BitAnd_bitand"), ("BitOr for $BUint<N>::bitor", "BitOr_bitor"),
+      ("BitXor for $BUint<N>::bitxor", "BitXor_bitxor"), ("Div for $BUint<N>::div", "Div_div"),
+      ("Div<$Digit> for $BUint<N>::div", "Div_digit_div"), ("Not for $BUint<N>::not", "Not_not"),
+      ("Rem for $BUint<N>::rem", "Rem_rem"), ("Rem<$Digit> for $BUint<N>::rem", "Rem_digit_rem")],
+     {"Add<$Digit> for $BUint<N>::add": LOOP2, "add_digit": "test-only (a quickcheck property under cfg(test))"}),
+    ("src/bint/ops.rs", "ops", "I",
+     [("Neg for $BInt<N>::neg", "Neg_neg"), ("Neg for &$BInt<N>::neg", "Neg_ref_neg"), ("BitAnd for $BInt<N>::bitand", "BitAnd_bitand"),
+      ("BitOr for $BInt<N>::bitor", "BitOr_bitor"), ("BitXor for $BInt<N>::bitxor", "BitXor_bitxor"), ("Div for $BInt<N>::div", "Div_div"),
+      ("Not for $BInt<N>::not", "Not_not"), ("Rem for $BInt<N>::rem", "Rem_rem")], {}),
+    ("src/int/numtraits.rs", "impls", "UI",
+     [("Bounded for $Int<N>::min_value", "Bounded_min_value"), ("Bounded for $Int<N>::max_value", "Bounded_max_value"),
+      ("CheckedNeg for $Int<N>::checked_neg", "CheckedNeg_checked_neg"), ("CheckedShl for $Int<N>::checked_shl", "CheckedShl_checked_shl"),
+      ("CheckedShr for $Int<N>::checked_shr", "CheckedShr_checked_shr"),
+      ("CheckedEuclid for $Int<N>::checked_div_euclid", "CheckedEuclid_checked_div_euclid"),
+      ("CheckedEuclid for $Int<N>::checked_rem_euclid", "CheckedEuclid_checked_rem_euclid"),
+      ("Euclid for $Int<N>::div_euclid", "Euclid_div_euclid"), ("Euclid for $Int<N>::rem_euclid", "Euclid_rem_euclid"),
+      ("WrappingNeg for $Int<N>::wrapping_neg", "WrappingNeg_wrapping_neg"), ("WrappingShl for $Int<N>::wrapping_shl", "WrappingShl_wrapping_shl"),
+      ("WrappingShr for $Int<N>::wrapping_shr", "WrappingShr_wrapping_shr"), ("Pow<ExpType> for $Int<N>::pow", "Pow_pow"),
+      ("Saturating for $Int<N>::saturating_add", "Saturating_saturating_add"), ("Saturating for $Int<N>::saturating_sub", "Saturating_saturating_sub"),
+      ("MulAdd for $Int<N>::mul_add", "MulAdd_mul_add"), ("One for $Int<N>::one", "One_one"), ("One for $Int<N>::is_one", "One_is_one"),
+      ("Zero for $Int<N>::zero", "Zero_zero"), ("Zero for $Int<N>::is_zero", "Zero_is_zero")],
+     {"AsPrimitive<$BUint<M>> for $Int<N>::as_": "cast (CastFrom): modelled by hand in Model/Cast.v (C09)",
+      "AsPrimitive<$BInt<M>> for $Int<N>::as_": "cast (CastFrom): modelled by hand in Model/Cast.v (C09)",
+      "MulAddAssign for $Int<N>::mul_add_assign": "`&mut self` store of mul_add (tied above); C18 runs it against TU_mul_add / TI_mul_add",
+      "Num for $Int<N>::from_str_radix": "forwards to the inherent parser (C10); strings are outside the glue vocabulary",
+      "num_traits::NumCast for $Int<N>::from": "generic over T: ToPrimitive; panics unconditionally"}),
+    ("src/int/unchecked.rs", "impls", "UI", ["unchecked_add", "unchecked_sub", "unchecked_mul", "unchecked_shl", "unchecked_shr"], {}),
+    ("src/buint/mod.rs", "mod_impl", "U",
+     ["cast_signed", "rotate_left", "rotate_right", "unbounded_shl", "unbounded_shr", "pow", "div_euclid", "rem_euclid",
+      "next_power_of_two", "midpoint", "ilog2", "abs_diff", "next_multiple_of", "div_floor", "div_ceil",
+      "unchecked_shr_internal", "bits"],
+     {"count_ones": LOOP2, "count_zeros": LOOP2, "leading_zeros": LOOP2, "trailing_zeros": LOOP2, "leading_ones": LOOP2,
+      "trailing_ones": LOOP2, "rotate_digits_left": LOOP2, "unchecked_rotate_left": LOOP2, "swap_bytes": LOOP2,
+      "reverse_bits": LOOP2, "is_power_of_two": LOOP2, "unchecked_shl_internal": LOOP2, "unchecked_shr_pad_internal": LOOP2,
+      "is_zero": LOOP2, "is_one": LOOP2, "last_digit_index": LOOP2,
+      "ilog10": FUEL + " (Model/Pow.v U_ilog10 = expect_log (U_checked_ilog10 ..))",
+      "ilog": FUEL + " (Model/Pow.v U_ilog; the `base <= 1` panic is subsumed by checked_ilog = None in the model)",
+      "bit": HAND + " (Model/Bits.v bit; indexes a digit, shifts on the digit type)",
+      "set_bit": "`&mut self`, indexes a digit; " + HAND + " (Model/Bits.v set_bit)",
+      "power_of_two": "`let mut` + indexed store; " + HAND + " (Model/Bits.v power_of_two)",
+      "digits": REPR, "digits_mut": REPR, "from_digits": REPR,
+      "from_digit": "`let mut` + indexed store; " + HAND + " (Model/Core.v from_digit)",
+      "square": "`self * self` (operator on Self), private and unused (#[allow(unused)])",
+      "Default for $BUint<N>::default": ITER, "Product<Self> for $BUint<N>::product": ITER,
+      "Product<&'aSelf> for $BUint<N>::product": ITER, "Sum<Self> for $BUint<N>::sum": ITER,
+      "Sum<&'aSelf> for $BUint<N>::sum": ITER,
+      "quickcheck::Arbitrary for $BUint<N>::arbitrary": "test-only (cfg(any(test, feature = \"quickcheck\")))"}),
+    ("src/bint/mod.rs", "mod_impl", "I",
+     ["count_ones", "count_zeros", "leading_zeros", "trailing_zeros", "leading_ones", "trailing_ones", "cast_unsigned",
+      "rotate_left", "rotate_right", "unbounded_shl", "unbounded_shr", "swap_bytes", "reverse_bits", "unsigned_abs", "pow",
+      "div_euclid", "rem_euclid", "abs", "signum", "is_positive", "is_negative", "is_power_of_two", "midpoint", "abs_diff",
+      "next_multiple_of", "div_floor", "div_ceil", "bits", "bit", "is_zero", "is_one"],
+     {"signed_digit": HAND + " (Model/Core.v signed_digit: `digits[N - 1] as SignedDigit`, an indexed load and a digit cast)",
+      "from_bits": REPR, "to_bits": REPR, "as_bits": REPR, "as_bits_mut": REPR,
+      "Default for $BInt<N>::default": ITER, "Product<Self> for $BInt<N>::product": ITER,
+      "Product<&'aSelf> for $BInt<N>::product": ITER, "Sum<Self> for $BInt<N>::sum": ITER,
+      "Sum<&'aSelf> for $BInt<N>::sum": ITER,
+      "quickcheck::Arbitrary for $BInt<N>::arbitrary": "test-only (cfg(any(test, feature = \"quickcheck\")))"}),
 ]
 # associated constants whose defining expression the translation relies on (checked textually, like rs2v_config.py)
 CONST_SHAPES = [
@@ -117,19 +206,64 @@ CONST_SHAPES = [
 USES = [("src/buint/strict.rs", "crate::int::strict::impls!(U);"), ("src/bint/strict.rs", "crate::int::strict::impls!(I);"),
         ("src/buint/const_trait_fillers.rs", "crate::int::cmp::impls!();"), ("src/bint/const_trait_fillers.rs", "crate::int::cmp::impls!();"),
         ("src/buint/const_trait_fillers.rs", "crate::int::ops::trait_fillers!();"), ("src/bint/const_trait_fillers.rs", "crate::int::ops::trait_fillers!();"),
-        ("src/buint/bigint_helpers.rs", "crate::int::bigint_helpers::impls!(U);"), ("src/bint/bigint_helpers.rs", "crate::int::bigint_helpers::impls!(I);")]
+        ("src/buint/bigint_helpers.rs", "crate::int::bigint_helpers::impls!(U);"), ("src/bint/bigint_helpers.rs", "crate::int::bigint_helpers::impls!(I);"),
+        ("src/buint/ops.rs", "crate::int::ops::impls!($BUint, $BUint, $BInt);"), ("src/bint/ops.rs", "crate::int::ops::impls!($BInt, $BUint, $BInt);"),
+        ("src/buint/unchecked.rs", "crate::int::unchecked::impls!($BUint, U);"), ("src/bint/unchecked.rs", "crate::int::unchecked::impls!($BInt, I);"),
+        ("src/buint/unchecked.rs", "crate::macro_impl!(unchecked);"), ("src/bint/unchecked.rs", "crate::macro_impl!(unchecked);")]
 USES += [(f[0], "crate::macro_impl!(%s);" % f[1]) for f in FILES if f[1] and not f[0].startswith("src/int/")]
+
+# functions produced by helper macros: (file defining the macro, macro, file with the invocations, Self types,
+#   [(invocation, metavariable assignment, {function key in the expansion: generated name})], {skipped invocation: reason})
+# every invocation of the macro in the invocation file must be listed (expanded or skipped).
+NT = lambda tr, m, ret: ("num_trait_impl!($Int, %s, %s, %s)" % (tr, m, ret), {"$Int": "$Int", "$tr": tr, "$method": m, "$ret": ret},
+                         {"%s for $Int<N>::%s" % (tr, m): "%s_%s" % (tr, m)})
+INSTANCES = [
+    ("src/bint/mod.rs", "ilog", "src/bint/mod.rs", "I", [("ilog!(ilog2)", {"$method": "ilog2"}, {"ilog2": "ilog2"})],
+     {"ilog!(ilog, base: Self)": FUEL + " (Model/Pow.v I_ilog)", "ilog!(ilog10)": FUEL + " (Model/Pow.v I_ilog10)"}),
+    ("src/bint/checked.rs", "checked_ilog", "src/bint/checked.rs", "I",
+     [("checked_ilog!(checked_ilog2)", {"$method": "checked_ilog2"}, {"checked_ilog2": "checked_ilog2"})],
+     {"checked_ilog!(checked_ilog10)": FUEL + " (Model/Pow.v I_checked_ilog10)"}),
+    ("src/int/numtraits.rs", "num_trait_impl", "src/int/numtraits.rs", "UI",
+     [NT("CheckedAdd", "checked_add", "Option<Self>"), NT("CheckedDiv", "checked_div", "Option<Self>"),
+      NT("CheckedMul", "checked_mul", "Option<Self>"), NT("CheckedRem", "checked_rem", "Option<Self>"),
+      NT("CheckedSub", "checked_sub", "Option<Self>"), NT("SaturatingAdd", "saturating_add", "Self"),
+      NT("SaturatingMul", "saturating_mul", "Self"), NT("SaturatingSub", "saturating_sub", "Self"),
+      NT("WrappingAdd", "wrapping_add", "Self"), NT("WrappingMul", "wrapping_mul", "Self"), NT("WrappingSub", "wrapping_sub", "Self"),
+      NT("OverflowingAdd", "overflowing_add", "(Self, bool)"), NT("OverflowingSub", "overflowing_sub", "(Self, bool)")], {}),
+] + [
+    ("src/int/ops.rs", mac, "src/int/ops.rs", "UI",
+     [(inv(tr, m, tys), dict({"$Struct": "$Struct", "$tr": tr, "$method": m, "$rhs": ty}, **({"$err": "\"\""} if mac == "try_shift_impl" else {})),
+       {"%s<%s> for $Struct<N>::%s" % (tr, ty, m): "%s_%s_%s" % (tr, ty, m)})
+      for tr, m in (("Shl", "shl"), ("Shr", "shr")) for tys in tyss for ty in tys], {})
+    for mac, tyss, inv in (
+        ("shift_impl", [["u8", "u16"]],
+         lambda tr, m, tys: "crate::int::ops::shift_impl!($Struct, %s, %s, %sAssign, %s_assign, %s)" % (tr, m, tr, m, ", ".join(tys))),
+        ("try_shift_impl", [["i8", "i16", "i32", "isize", "i64", "i128"], ["usize", "u64", "u128"]],
+         lambda tr, m, tys: "crate::int::ops::try_shift_impl!($Struct, $BUint, $BInt; %s, %s, %sAssign, %s_assign, \"attempt to shift %s with overflow\", %s)" % (
+             tr, m, tr, m, {"shl": "left", "shr": "right"}[m], ", ".join(tys))))
+]
+USES += [("src/int/ops.rs", "crate::int::ops::all_shift_impls!($Struct, $BUint, $BInt);"),
+         ("src/bint/mod.rs", "ilog!(ilog2);"), ("src/bint/checked.rs", "checked_ilog!(checked_ilog2);"),
+         ("src/buint/numtraits.rs", "crate::int::numtraits::impls!($BUint, $BUint, $BInt, $Digit);"),
+         ("src/bint/numtraits.rs", "crate::int::numtraits::impls!($BInt, $BUint, $BInt, $Digit);"),
+         ("src/buint/numtraits.rs", "crate::macro_impl!(numtraits);"), ("src/bint/numtraits.rs", "crate::macro_impl!(numtraits);")]
 
 # ------------------------------------------------------------------------------------------------------------------
 # types:  "U" (BUint digit list)  "I" (BInt digit list)  "bool"  "Z" (ExpType/u32)  "ord"  ("opt", T)  ("tup", [T..])
 # None is the unknown type of `None` / a diverging expression
 
 
+PRIM_INTS = ("u8", "u16", "u64", "u128", "usize", "i8", "i16", "i32", "i64", "i128", "isize")
+INTS = ("Z", "SD", "D", "lit")     # ExpType / signed digit / digit / integer literal (all Coq Z)
+
+
 def teq(a, b):
     if a is None or b is None:
         return True
+    if a == "lit" or b == "lit":
+        return a in INTS and b in INTS
     if isinstance(a, tuple) and isinstance(b, tuple):
-        if a[0] != b[0]:
+        if a[0] != b[0] or a[0] == "ub":
             return False
         if a[0] == "opt":
             return teq(a[1], b[1])
@@ -138,9 +272,9 @@ def teq(a, b):
 
 
 def tjoin(a, b):
-    if a is None:
-        return b
-    if b is None:
+    if a is None or a == "lit":
+        return b if b is not None else a
+    if b is None or b == "lit":
         return a
     if isinstance(a, tuple) and isinstance(b, tuple) and a[0] == b[0]:
         if a[0] == "opt":
@@ -152,9 +286,13 @@ def tjoin(a, b):
 def tshow(t):
     if t is None:
         return "_"
+    if isinstance(t, tuple) and t[0] == "ub":
+        return "(unwrap_unchecked of option %s)" % tshow(t[1])
     if isinstance(t, tuple):
         return "option (%s)" % tshow(t[1]) if t[0] == "opt" else "(" + " * ".join(tshow(x) for x in t[1]) + ")"
-    return {"U": "list Z", "I": "list Z", "bool": "bool", "Z": "Z", "ord": "comparison"}[t]
+    if isinstance(t, str) and t.startswith("P:"):
+        return "Z"
+    return {"U": "list Z", "I": "list Z", "bool": "bool", "Z": "Z", "ord": "comparison", "SD": "Z", "D": "Z", "lit": "Z"}[t]
 
 
 def tup(*ts):
@@ -249,8 +387,51 @@ reg("I", "neg", [], "I", eff=True, dbg=True)
 reg("I", "abs", [], "I", eff=True, dbg=True)
 reg("I", "unsigned_abs", [], "U")
 raw("I", "is_negative", "is_negative w {0}", [], "bool")
+# ---- vocabulary of the second round (mod.rs, const_trait_fillers.rs, the rest of checked / overflowing)
+for S in ("U", "I"):
+    sg = S == "I"
+    raw(S, "count_ones", "count_ones {0}", [], "Z")
+    for f_ in ("count_zeros", "leading_zeros", "trailing_zeros", "leading_ones", "trailing_ones"):
+        raw(S, f_, f_ + " w {0}", [], "Z")
+    raw(S, "bits", "bits_of w {0}", [], "Z")
+    raw(S, "bit", "bit w {0} {1}", ["Z"], "bool", eff=True)
+    raw(S, "rotate_left", "rotate_left w {0} {1}", ["Z"], S)
+    raw(S, "rotate_right", "rotate_right w {0} {1}", ["Z"], S)
+    reg(S, "unbounded_shl", ["Z"], S)
+    reg(S, "unbounded_shr", ["Z"], S)
+    raw(S, "swap_bytes", "swap_bytes w {0}", [], S)
+    raw(S, "reverse_bits", "reverse_bits w {0}", [], S)
+    raw(S, "bitand", "bitand {0} {1}", [S], S)
+    raw(S, "bitor", "bitor {0} {1}", [S], S)
+    raw(S, "bitxor", "bitxor {0} {1}", [S], S)
+    raw(S, "ne", "negb (eq_digits {0} {1})", [S], "bool")
+    reg(S, "checked_ilog2", [], opt("Z"))
+    reg(S, "ilog2", [], "Z", eff=True)
+    reg(S, "abs_diff", [S], "U")
+    reg(S, "midpoint", [S], S, eff=True, dbg=True)
+    reg(S, "div_floor", [S], S, eff=True, dbg=sg)
+    reg(S, "div_ceil", [S], S, eff=True, dbg=True)
+    reg(S, "next_multiple_of", [S], S, eff=True, dbg=True)
+    reg(S, "checked_next_multiple_of", [S], opt(S), eff=True, dbg=True)
+raw("U", "unchecked_rotate_left", "unchecked_rotate_left w {0} {1}", ["Z"], "U")
+raw("U", "is_power_of_two", "U_is_power_of_two {0}", [], "bool")
+raw("I", "is_power_of_two", "I_is_power_of_two w {0}", [], "bool")
+reg("U", "wrapping_next_power_of_two", [], "U", eff=True)
+reg("U", "next_power_of_two", [], "U", eff=True, dbg=True)
+raw("U", "power_of_two", "power_of_two w {n} {0}", [], "U", eff=True)      # static: Self::power_of_two(bits)
+reg("U", "div_rem", ["U"], tup("U", "U"), eff=True)
+raw("I", "signed_digit", "signed_digit w {0}", [], "SD")
+raw("I", "is_positive", "is_positive w {0}", [], "bool")
+raw("I", "signum", "signum w {0}", [], "I")
+raw("SD", "is_positive", "Z.ltb 0 {0}", [], "bool")
+raw("SD", "is_negative", "Z.ltb {0} 0", [], "bool")
+# div_rem_digit on an arbitrary digit: digit::div_rem_wide divides by it (debug_assert!(high < rhs) / the primitive division), so
+# a zero digit panics in both build modes; Model/Div.v div_rem_digit itself is total (see Model/Ops.v U_Div_digit)
+raw("U", "div_rem_digit", "if Z.eqb {1} 0 then Panic else Ret (div_rem_digit w {0} {1})", ["D"], tup("U", "D"), eff=True)
+# u32::checked_sub on ExpType values
+raw("Z", "checked_sub", "if Z.ltb {0} {1} then None else Some (Z.sub {0} {1})", ["Z"], opt("Z"))
 # the receiver type of saturate_up/down's argument is a pair: handled in static calls by the declared first-argument type
-STATIC_FIRST = {("U", "saturate_up"): tup("U", "bool"), ("U", "saturate_down"): tup("U", "bool")}
+STATIC_FIRST = {("U", "saturate_up"): tup("U", "bool"), ("U", "saturate_down"): tup("U", "bool"), ("U", "power_of_two"): "Z"}
 
 CONSTS = {("U", "MAX"): ("UMAX w {n}", "U"), ("U", "MIN"): ("ZERO {n}", "U"), ("U", "ZERO"): ("ZERO {n}", "U"),
           ("U", "ONE"): ("ONE {n}", "U"), ("U", "BITS"): ("bits w {n}", "Z"),
@@ -291,7 +472,7 @@ def qual(tmpl):
             if len(MODEL_DEFS[x]) != 1:
                 die("model name %s is defined in several model files: %s" % (x, MODEL_DEFS[x]))
             return MODEL_DEFS[x][0] + "." + x
-        if x in QUAL_SKIP or x in ("bits", "sub", "land") or x == "Z":
+        if x in QUAL_SKIP or x in ("bits", "sub", "land", "ltb", "eqb", "negb", "if", "then", "else", "None", "Some", "Panic", "Ret") or x == "Z":
             return x
         die("vocabulary names %s, which is not defined in coq/Model/{%s}.v" % (x, ",".join(MODEL_FILES)))
     return re.sub(r"[A-Za-z_][\w']*", f, tmpl)
@@ -328,22 +509,107 @@ def macro_region(src, name, path):
     return src[m.end() - 1:balanced(src, m.end() - 1, "{", "}")]
 
 
-FN_RE = re.compile(r"(?:pub(?:\(\w+\))?\s+)?const\s+(?:unsafe\s+)?fn\s+(\$?\w+)\s*(<[^>(]*>)?\s*\(")
+def macro_arm_body(region, name, path):
+    """region = the `{ (pattern) => { body } }` of a single-arm macro_rules!: returns the body (without its braces)"""
+    i = 1
+    while region[i].isspace():
+        i += 1
+    if region[i] not in "([{":
+        die("macro %s: cannot find the pattern of its arm" % name)
+    j = balanced(region, i, region[i], {"(": ")", "[": "]", "{": "}"}[region[i]])
+    m = re.match(r"\s*=>\s*", region[j:])
+    if not m:
+        die("macro %s: no `=>` after the pattern" % name)
+    k = j + m.end()
+    if region[k] not in "{(":
+        die("macro %s: cannot find the body of its arm" % name)
+    e = balanced(region, k, region[k], {"{": "}", "(": ")"}[region[k]])
+    if region[e:].strip(" \t\n;") != "}":
+        die("macro %s has more than one arm: outside the supported subset of macro instantiation" % name)
+    return region[k + 1:e - 1]
+
+
+def instantiate(body, subst, name):
+    """one expansion of a macro body for the metavariable assignment `subst` ($x -> text).  A repetition group
+    `$( .. ) sep? [*+?]` is expanded exactly once when every metavariable inside it is assigned and dropped when none is
+    (a mixture is an error); no other form of repetition is supported"""
+    while True:
+        i = body.find("$(")
+        if i < 0:
+            break
+        j = balanced(body, i + 1, "(", ")")
+        m = re.match(r"\s*([^\s*+?$(){}\[\]])?\s*([*+?])", body[j:])
+        if not m:
+            die("macro %s: cannot parse the repetition operator after a `$( .. )` group" % name)
+        inner = body[i + 2:j - 1]
+        vs = set(re.findall(r"\$[A-Za-z_]\w*", inner))
+        have = [v for v in vs if v in subst]
+        if vs and len(have) == len(vs):
+            rep = inner
+        elif not have:
+            rep = ""
+        else:
+            die("macro %s: a repetition group mixes assigned and unassigned metavariables (%s)" % (name, ", ".join(sorted(vs))))
+        body = body[:i] + rep + body[j + m.end():]
+    def sub(m):
+        if m.group(0) not in subst:
+            die("macro %s: metavariable %s is not assigned by the instance table" % (name, m.group(0)))
+        return subst[m.group(0)]
+    keep = {"$BUint", "$BInt", "$Digit", "$Struct", "$Int"}
+    return re.sub(r"\$[A-Za-z_]\w*", lambda m: m.group(0) if (m.group(0) in keep and m.group(0) not in subst) else sub(m), body)
+
+
+FN_RE = re.compile(r"(?:pub(?:\(\w+\))?\s+)?(?:const\s+)?(?:unsafe\s+)?\bfn\s+(\$?\w+)\s*(?=[<(])")
+IMPL_RE = re.compile(r"\bimpl\b")
+
+
+def impl_blocks(region):
+    """[(start, end, header)] of every `impl ... { ... }` of the region; header = the text between `impl<..>` and `{`"""
+    res = []
+    for m in IMPL_RE.finditer(region):
+        i = m.end()
+        j = i
+        while j < len(region) and region[j].isspace():
+            j += 1
+        if j < len(region) and region[j] == "<":
+            j = balanced(region, j, "<", ">")
+        k = region.find("{", j)
+        semi = region.find(";", j)
+        if k < 0 or (0 <= semi < k):
+            continue
+        res.append((k, balanced(region, k, "{", "}"), re.sub(r"\s+", " ", region[j:k]).strip()))
+    return res
 
 
 def find_fns(region, path):
+    """[(key, params, return type, body)]; key = the function name for a free / inherent function, and
+    `<Trait> for <Type>::<name>` (blanks removed) for a function of a trait impl"""
     res = []
+    impls = impl_blocks(region)
     for m in FN_RE.finditer(region):
         name = m.group(1)
-        i = m.end() - 1
+        inner = None
+        for (a, b, h) in impls:
+            if a < m.start() < b and (inner is None or a > inner[0]):
+                inner = (a, b, h)
+        if inner is not None and re.search(r"\bfor\b", inner[2]):
+            tr_, ty_ = re.split(r"\bfor\b", inner[2], 1)
+            name = "%s for %s::%s" % (re.sub(r"\s+", "", tr_), re.sub(r"\s+", "", ty_), name)
+        i = m.end()
+        if region[i] == "<":
+            i = balanced(region, i, "<", ">")
+            while region[i].isspace():
+                i += 1
+            if region[i] != "(":
+                die("cannot find the parameter list of fn %s" % name)
         j = balanced(region, i, "(", ")")
-        rm = re.match(r"\s*->\s*([^{;]+)\{", region[j:])
+        rm = re.match(r"\s*(?:->\s*([^{;]+))?\{", region[j:])
         if not rm:
-            res.append((name, region[i + 1:j - 1], None, None))     # no return type: only translatable functions need one
+            res.append((name, region[i + 1:j - 1], None, None))     # a declaration without body
             continue
         k = j + rm.end() - 1
         e = balanced(region, k, "{", "}")
-        res.append((name, region[i + 1:j - 1], rm.group(1).strip(), region[k:e]))
+        res.append((name, region[i + 1:j - 1], (rm.group(1) or "()").strip(), region[k:e]))
     return res
 
 
@@ -378,7 +644,7 @@ def tokenize(s):
 
 
 IDENT = re.compile(r"^\$?[A-Za-z_]\w*$")
-KEYWORDS = {"if", "else", "match", "let", "return", "unsafe", "true", "false", "mut", "while", "loop", "for", "as", "in", "ref", "move"}
+KEYWORDS = {"if", "else", "match", "let", "return", "unsafe", "true", "false", "mut", "while", "loop", "for", "as", "in", "ref", "move", "use"}
 
 
 class P:
@@ -427,16 +693,20 @@ class P:
             t = self.type_()
             self.eat(">")
             return ("opt", t)
-        if name in ("$BUint", "$BInt"):
+        if name in ("$BUint", "$BInt", "$Struct", "$Int"):
             if self.peek() == "<":
                 self.eat("<")
                 self.eat("N")
                 self.eat(">")
-            return "U" if name == "$BUint" else "I"
+            return {"$BUint": "U", "$BInt": "I"}.get(name, "Self")      # $Struct / $Int: the type the macro is expanded for
+        if name == "$Digit":
+            return "D"
         if name == "Self":
             return "Self"
         if name in ("ExpType", "u32"):
             return "Z"
+        if name in PRIM_INTS:
+            return "P:" + name          # a primitive integer other than ExpType = u32 (shift amounts): its value as a Coq Z
         if name == "bool":
             return "bool"
         if name == "Ordering":
@@ -445,24 +715,26 @@ class P:
 
     # ---- blocks and statements
     def block(self):
-        """'{' stmt* tail '}'  ->  ('block', [stmt], tail)   stmt = ('let', pat, e) | ('assert', c) | ('guard', c, then-tail)
-        tail = expr | ('return', e) | ('dbgif', e1, e2)"""
+        """'{' stmt* [tail] '}'  ->  ('block', [stmt], tail)
+        stmt = ('let', pat, e, mutable names) | ('assign', x, e) | ('assert', c) | ('sif', c, block, block-or-None)
+        tail = expr | ('return', e) | ('dbgif', e1, e2) | ('panic',) | None (the block falls through: statement blocks only)"""
         self.eat("{")
         stmts = []
         while True:
             v = self.peek()
+            if v == "}":
+                self.eat("}")
+                return ("block", stmts, None)
             if v == "let":
                 self.eat("let")
-                if self.peek() == "mut":
-                    die("`let mut` is outside the supported subset")
-                pat = self.let_pattern()
+                pat, muts = self.let_pattern()
                 if self.peek() == ":":
                     self.eat(":")
                     self.type_()
                 self.eat("=")
                 e = self.expr()
                 self.eat(";")
-                stmts.append(("let", pat, e))
+                stmts.append(("let", pat, e, muts))
             elif v == "assert!":
                 self.eat()
                 self.eat("(")
@@ -473,7 +745,34 @@ class P:
                     self.eat(")")
                 self.eat(";")
                 stmts.append(("assert", c))
+            elif v == "use":
+                while self.eat() != ";":
+                    pass
+            elif v == "#cfg(debug_assertions)" and self.peek(1) == "let":
+                # #[cfg(debug_assertions)] let x = e1;  #[cfg(not(debug_assertions))] let x = e2;
+                def one_let():
+                    self.eat("let")
+                    x = self.ident()
+                    if self.peek() == ":":
+                        self.eat(":")
+                        self.type_()
+                    self.eat("=")
+                    e_ = self.expr()
+                    self.eat(";")
+                    return x, e_
+                self.eat()
+                x1, e1 = one_let()
+                if self.peek() != "#cfg(not(debug_assertions))" or self.peek(1) != "let":
+                    die("expected #[cfg(not(debug_assertions))] let after the debug-assertions let")
+                self.eat()
+                x2, e2 = one_let()
+                if x1 != x2:
+                    die("the two cfg(debug_assertions) lets bind different names")
+                stmts.append(("let", x1, ("dbgsel", e1, e2), set()))
             elif v is not None and v.startswith("#"):
+                if v == "#allow(clippy::comparison_chain)":
+                    self.eat()
+                    continue
                 if v != "#cfg(debug_assertions)":
                     die("unsupported attribute %s inside a function body" % v)
                 self.eat()
@@ -495,18 +794,55 @@ class P:
                 return ("block", stmts, ("return", e))
             elif v in ("while", "loop", "for"):
                 die("loop (`%s`) is outside the supported subset" % v)
+            elif v is not None and IDENT.match(v) and v not in KEYWORDS and self.peek(1) == "=":
+                x = self.ident()
+                self.eat("=")
+                e = self.expr()
+                self.eat(";")
+                stmts.append(("assign", x, e))
             else:
                 e = self.expr()
+                if e[0] == "panic" and self.peek() == ";":         # `div_zero!();` / `panic!(..);`
+                    self.eat(";")
+                    self.eat("}")                                    # nothing may follow a panic
+                    return ("block", stmts, e)
                 if self.peek() == "}":
                     self.eat("}")
+                    if e[0] == "if" and self.is_stmt_if(e):
+                        stmts.append(("sif", e[1], e[2], e[3]))
+                        return ("block", stmts, None)
                     return ("block", stmts, e)
-                # a statement-level `if c { diverge }` (no else) followed by more code
-                if e[0] == "if" and e[3] is None:
+                # a statement-level `if` (no value) followed by more code
+                if e[0] == "if" and self.is_stmt_if(e):
                     if self.peek() == ";":
                         self.eat(";")
-                    stmts.append(("guard", e[1], e[2]))
+                    stmts.append(("sif", e[1], e[2], e[3]))
                     continue
                 die("expression statement is outside the supported subset (near %r)" % self.peek())
+
+    @staticmethod
+    def branch_kind(b):
+        """'value' | 'diverge' (return / panic) | 'fall' (no value: control may reach the end of the block)"""
+        t = b[2]
+        if t is None:
+            return "fall"
+        if t[0] in ("return", "panic"):
+            return "diverge"
+        if t[0] == "if":
+            return "fall" if P.is_stmt_if(t) else "value"
+        return "value"
+
+    @staticmethod
+    def is_stmt_if(e):
+        """an `if` used as a statement (no value): no `else`, or no branch has a value"""
+        if e[3] is None:
+            return True
+        ks = [P.branch_kind(e[2]), P.branch_kind(e[3])]
+        if "value" in ks:
+            if "fall" in ks:
+                die("`if` with a value in one branch and none in the other")
+            return False
+        return True
 
     def skip_to_close(self):
         d = 1
@@ -518,15 +854,26 @@ class P:
                 d -= 1
 
     def let_pattern(self):
+        """-> (name | [names], set of the names declared `mut`)"""
+        muts = set()
+
+        def one():
+            m = self.peek() == "mut"
+            if m:
+                self.eat()
+            x = self.ident()
+            if m:
+                muts.add(x)
+            return x
         if self.peek() == "(":
             self.eat("(")
-            ns = [self.ident()]
+            ns = [one()]
             while self.peek() == ",":
                 self.eat(",")
-                ns.append(self.ident())
+                ns.append(one())
             self.eat(")")
-            return ns
-        return self.ident()
+            return ns, muts
+        return one(), muts
 
     def match_pattern(self):
         alts = [self.pat1()]
@@ -537,6 +884,16 @@ class P:
 
     def pat1(self):
         v = self.peek()
+        if v == "(":
+            self.eat("(")
+            ps = [self.pat1()]
+            while self.peek() == ",":
+                self.eat(",")
+                ps.append(self.pat1())
+            self.eat(")")
+            if len(ps) < 2 or any(q[0] not in ("pbool", "wild") for q in ps):
+                die("tuple pattern other than a tuple of true / false / _")
+            return ("ptup", ps)
         if v == "_":
             self.eat()
             return ("wild",)
@@ -591,8 +948,15 @@ class P:
         if v == "-":
             die("unary minus is outside the supported subset")
         e = self.postfix()
-        if self.peek() == "as":
-            die("`as` cast is outside the supported subset")
+        while self.peek() == "as":
+            self.eat("as")
+            segs = [self.eat()]
+            while self.peek() == "::":
+                self.eat("::")
+                segs.append(self.eat())
+            if segs[-1] not in ("ExpType", "u32"):
+                die("`as %s` cast is outside the supported subset (only `as ExpType`)" % "::".join(segs))
+            e = ("as_exptype", e)
         return e
 
     def args(self):
@@ -613,12 +977,25 @@ class P:
             if self.peek() == ".":
                 self.eat(".")
                 name = self.eat()
+                generic = None
+                if self.peek() == "::" and self.peek(1) == "<":
+                    self.eat("::")
+                    self.eat("<")
+                    generic = self.eat()
+                    self.eat(">")
+                    if self.peek() != "(":
+                        die("turbofish without a call")
                 if self.peek() == "(":
-                    e = ("mcall", e, name, self.args())
+                    e = ("mcall", e, name, self.args(), generic)
                 else:
                     e = ("field", e, name)
             elif self.peek() == "[":
-                die("indexing is outside the supported subset")
+                if not (e[0] == "field" and e[2] == "digits" and self.peek(1) == "0" and self.peek(2) == "]"):
+                    die("indexing is outside the supported subset (only `.digits[0]`)")
+                self.eat("[")
+                self.eat("0")
+                self.eat("]")
+                e = ("digit0", e[1])
             elif self.peek() == "?":
                 die("`?` is outside the supported subset")
             else:
@@ -732,9 +1109,19 @@ class P:
             self.eat(",")
             self.skip_to_close()          # the panic message does not matter to the model
             return ("expect", e)
-        if name == "div_zero!":
+        if name == "result_expect!":
+            self.eat("(")
+            e = self.expr()
+            self.eat(",")
+            self.skip_to_close()
+            return ("expect", e)            # Results are translated as options (Err = None)
+        if name in ("div_zero!", "rem_zero!"):
             self.eat("(")
             self.eat(")")
+            return ("panic",)
+        if name == "panic!":
+            self.eat("(")
+            self.skip_to_close()          # the panic message does not matter to the model
             return ("panic",)
         die("unsupported macro %s" % "::".join(segs))
 
@@ -747,6 +1134,8 @@ class Gen:
         self.nvar = nvar           # Coq name of the first digit-list parameter: N = length of it
         self.k = 0
         self.uses_dbg = False
+        self.uses_n = False
+        self.nontail = 0           # > 0 while translating an operand / condition / let right-hand side (no `return` there)
 
     def fresh(self):
         self.k += 1
@@ -754,7 +1143,9 @@ class Gen:
 
     def n(self):
         if self.nvar is None:
-            die("needs N (an associated constant) but the function has no BUint/BInt parameter")
+            # an associated function without a BUint/BInt parameter (Bounded::min_value, Zero::zero ..): N is a parameter
+            self.uses_n = True
+            return "n"
         return "(length %s)" % self.nvar
 
     def rty(self, t):
@@ -794,7 +1185,9 @@ class Gen:
         `close` at the enclosing branch / function body); build(list of (pure term, type)) -> (term, ty, eff)"""
         binds, pure = [], []
         for p in parts:
+            self.nontail += 1
             b, t, ty, eff = self.tr(p, env)
+            self.nontail -= 1
             binds += b
             if eff:
                 x = self.fresh()
@@ -806,17 +1199,23 @@ class Gen:
         return binds, term, ty, eff
 
     def tyname(self, seg):
-        return {"Self": self.S, "$BUint": "U", "$BInt": "I"}.get(seg)
+        return {"Self": self.S, "$BUint": "U", "$BInt": "I", "$Struct": self.S, "$Int": self.S}.get(seg)
 
     def call(self, rty, name, vals, generic=None):
         """vals = [(term, type)] receiver first"""
-        if rty not in ("U", "I"):
+        if rty == "lit":
+            rty = "Z"
+        if name == "unwrap_unchecked" and isinstance(rty, tuple) and rty[0] == "opt" and len(vals) == 1:
+            # undefined behaviour on None: the generated function returns the Option itself, None = "outside the contract"
+            return vals[0][0], ("ub", rty[1]), False
+        if rty not in ("U", "I", "SD", "Z"):
             die("method .%s() on a value of type %s is outside the vocabulary" % (name, tshow(rty)))
         if name == "to_bits" and rty == "I" and len(vals) == 1:
             return vals[0][0], "U", False
         ent = CALLEES.get((rty, name))
         if ent is None:
-            die("no model function for %s::%s (not in the translator's vocabulary)" % ({"U": "BUint", "I": "BInt"}[rty], name))
+            die("no model function for %s::%s (not in the translator's vocabulary)" % (
+                {"U": "BUint", "I": "BInt", "SD": "SignedDigit", "Z": "ExpType"}[rty], name))
         tmpl, argtys, ret, eff, dbg = ent
         first = STATIC_FIRST.get((rty, name), rty)
         want = [first] + argtys
@@ -833,7 +1232,9 @@ class Gen:
             die("unexpected const generic on %s" % name)
         if dbg:
             self.uses_dbg = True
-        return "(" + qual(tmpl).format(*[v[0] for v in vals]) + ")", ret, eff
+        if "{n}" in tmpl:
+            tmpl = tmpl.replace("{n}", "{N}")
+        return "(" + qual(tmpl).format(*[v[0] for v in vals], N=self.n() if "{N}" in tmpl else "") + ")", ret, eff
 
     def tr(self, e, env):
         """-> (pending binds, term, type, term is outcome-valued?)"""
@@ -845,13 +1246,30 @@ class Gen:
                 die("unbound variable %s" % e[1])
             return [], env[e[1]][0], env[e[1]][1], False
         if k == "lit":
-            return [], str(e[1]), "Z", False
+            return [], str(e[1]), "lit", False
+        if k == "as_exptype":
+            def bc(vs):
+                t0 = vs[0][1]
+                if t0 in ("Z", "lit", "P:u8", "P:u16"):
+                    return vs[0][0], "Z", False                   # ExpType -> ExpType, or a widening cast: the value is unchanged
+                if isinstance(t0, str) and t0.startswith("P:"):
+                    return "(Z.modulo %s (2 ^ 32))" % vs[0][0], "Z", False        # truncating / sign-reinterpreting `as u32`
+                die("`as ExpType` on a value of type %s" % tshow(t0))
+            return self.seq([e[1]], env, bc)
+        if k == "digit0":
+            def bd(vs):
+                if vs[0][1] not in ("U", "I"):
+                    die(".digits[0] on %s" % tshow(vs[0][1]))
+                return "(hd 0 %s)" % vs[0][0], "D", False          # N = 0 (where Rust's [0] would not compile) is outside the model
+            return self.seq([e[1]], env, bd)
         if k == "bool":
             return [], e[1], "bool", False
         if k == "panic":
             return [], "Panic", None, True
         if k == "path":
             segs = e[1]
+            if len(segs) >= 2 and segs[-2] == "Ordering" and segs[-1] in ("Less", "Equal", "Greater"):
+                return [], {"Less": "Lt", "Equal": "Eq", "Greater": "Gt"}[segs[-1]], "ord", False
             t = self.tyname(segs[-2]) if len(segs) >= 2 else None
             if t is None or (t, segs[-1]) not in CONSTS:
                 die("unknown constant %s" % "::".join(segs))
@@ -876,6 +1294,15 @@ class Gen:
             return self.seq([e[1]], env, bn)
         if k == "bin":
             op = e[1]
+            if op in ("*", "+", "-"):
+                # on BUint / BInt operands: std::ops Mul / Add / Sub, i.e. (int/ops.rs impls!, tied in GlueTieC04) the inherent mul / add / sub
+                k0 = self.k
+                self.nontail += 1
+                _, _, tl, _ = self.tr(e[2], env)
+                self.nontail -= 1
+                self.k = k0
+                if tl in ("U", "I"):
+                    return self.seq([e[2], e[3]], env, lambda vs: self.call(vs[0][1], {"*": "mul", "+": "add", "-": "sub"}[op], vs))
 
             def bb(vs):
                 (a, ta), (b, tb) = vs
@@ -887,7 +1314,16 @@ class Gen:
                     if f is None:
                         die("unsupported boolean operator %s" % op)
                     return "(" + f % (a, b) + ")", "bool", False
-                if ta == "Z":
+                tj = tjoin(ta, tb)
+                if tj in INTS:
+                    if op in ("+", "-", "%") and tj not in ("Z", "lit"):
+                        die("arithmetic operator %s on %s" % (op, tj))
+                    if op in ("&", "|", "^") and tj == "SD":
+                        die("bitwise operator %s on a signed digit" % op)
+                    if op == "%":
+                        if not (e[3][0] == "path" and e[3][1][-1] == "BITS"):
+                            die("`%` by anything but the constant BITS is outside the supported subset")
+                        return "(Z.modulo %s %s)" % (a, b), "Z", False
                     if op in (">", ">="):
                         a, b = b, a
                     f = {"==": "Z.eqb %s %s", "!=": "negb (Z.eqb %s %s)", "<": "Z.ltb %s %s", ">": "Z.ltb %s %s",
@@ -897,7 +1333,7 @@ class Gen:
                     f = {"&": "Z.land %s %s", "|": "Z.lor %s %s", "^": "Z.lxor %s %s", "+": "Z.add %s %s", "-": "Z.sub %s %s"}.get(op)
                     if f is None:
                         die("unsupported integer operator %s" % op)
-                    return "(" + f % (a, b) + ")", "Z", False
+                    return "(" + f % (a, b) + ")", ("Z" if tj == "lit" else tj), False
                 die("operator %s on %s is outside the supported subset" % (op, tshow(ta)))
             r = self.seq([e[2], e[3]], env, bb)
             if op in ("||", "&&"):
@@ -917,7 +1353,7 @@ class Gen:
             return self.seq([e[1]], env, be)
         if k == "mcall":
             def bm(vs):
-                return self.call(vs[0][1], e[2], vs)
+                return self.call(vs[0][1], e[2], vs, e[4])
             return self.seq([e[1]] + e[3], env, bm)
         if k == "scall":
             segs, generic, args = e[1], e[2], e[3]
@@ -930,6 +1366,14 @@ class Gen:
                             die("tuple_to_option on %s" % tshow(ty))
                         return "(Core.tuple_to_option %s)" % t, ("opt", ty[1][0]), False
                     return self.seq(args, env, bt)
+                if segs == ["ExpType", "try_from"] and len(args) == 1:
+                    # u32::try_from(x) for a primitive integer x: Ok exactly when 0 <= x <= u32::MAX (a Result, translated as an option)
+                    def btf(vs):
+                        if not (isinstance(vs[0][1], str) and vs[0][1].startswith("P:")):
+                            die("ExpType::try_from on %s" % tshow(vs[0][1]))
+                        v_ = vs[0][0]
+                        return "(if andb (Z.leb 0 %s) (Z.leb %s u32_max) then Some %s else None)" % (v_, v_, v_), ("opt", "Z"), False
+                    return self.seq(args, env, btf)
                 if name == "Some" and len(args) == 1:
                     return self.seq(args, env, lambda vs: ("(Some %s)" % vs[0][0], ("opt", vs[0][1]), False))
                 die("call of unknown function %s" % "::".join(segs))
@@ -949,6 +1393,12 @@ class Gen:
             return self.seq([e[1]], env, lambda vs: self.tr_match(vs[0], e[2], env))
         if k == "block":
             return self.tr_stmts(e[1], e[2], dict(env))
+        if k in ("return", "dbgif"):
+            return self.tr_tail(e, env)
+        if k == "dbgsel":
+            self.uses_dbg = True
+            (ta, tb), ty, eff = self.branches([self.trc(e[1], env), self.trc(e[2], env)])
+            return [], "(if dbg then %s else %s)" % (ta, tb), ty, eff
         die("cannot translate %r" % (e,))
 
     def branches(self, parts):
@@ -1008,6 +1458,12 @@ class Gen:
                     if sty != "bool":
                         die("pattern %s against %s" % (p[1], tshow(sty)))
                     ps.append(p[1])
+                elif p[0] == "ptup":
+                    if not (isinstance(sty, tuple) and sty[0] == "tup" and len(sty[1]) == len(p[1]) and all(t == "bool" for t in sty[1])):
+                        die("tuple pattern against %s" % tshow(sty))
+                    ps.append("(" + ", ".join("_" if q[0] == "wild" else q[1] for q in p[1]) + ")")
+                else:
+                    die("unsupported pattern %r" % (p,))
             pats.append(" | ".join(ps))
             parts.append(self.trc(body, env2))
         terms, ty, eff = self.branches(parts)
@@ -1019,20 +1475,95 @@ class Gen:
 
     def tr_tail(self, tail, env):
         if tail[0] == "return":
+            if self.nontail:
+                die("`return` inside an operand / condition / let right-hand side is outside the supported subset")
             return self.tr(tail[1], env)
         if tail[0] == "dbgif":
+            if self.nontail:
+                die("debug-assertions split inside an operand is outside the supported subset")
             self.uses_dbg = True
             (ta, tb), ty, eff = self.branches([self.trc(tail[1], env), self.trc(tail[2], env)])
             return [], "(if dbg then %s else %s)" % (ta, tb), ty, eff
         return self.tr(tail, env)
 
-    def tr_stmts(self, stmts, tail, env):
+    # ---- statement blocks: assignments and statement-level `if`
+    @staticmethod
+    def has_assign(blk):
+        if blk is None:
+            return False
+        for st in blk[1]:
+            if st[0] == "assign" or (st[0] == "sif" and (Gen.has_assign(st[2]) or Gen.has_assign(st[3]))):
+                return True
+        t = blk[2]
+        return t is not None and t[0] == "if" and P.is_stmt_if(t) and (Gen.has_assign(t[2]) or Gen.has_assign(t[3]))
+
+    @staticmethod
+    def assigned(blk, outer, acc):
+        """the variables of `outer` assigned somewhere in the statement block, in order of first assignment; dies on
+        anything but let / assign / nested assigning `if` (an early return or panic cannot be mixed with assignments)"""
+        if blk is None:
+            return acc
+        local = set()
+        stmts = list(blk[1])
+        t = blk[2]
+        if t is not None:
+            if t[0] == "if" and P.is_stmt_if(t):
+                stmts.append(("sif", t[1], t[2], t[3]))
+            else:
+                die("a block that assigns to a `let mut` variable may only contain let / assignment / nested `if` statements")
+        for st in stmts:
+            if st[0] == "let":
+                for x in (st[1] if isinstance(st[1], list) else [st[1]]):
+                    local.add(x)
+            elif st[0] == "assign":
+                if st[1] not in local:
+                    if st[1] not in outer:
+                        die("assignment to undeclared variable %s" % st[1])
+                    if st[1] not in acc:
+                        acc.append(st[1])
+            elif st[0] == "sif":
+                sub = []
+                Gen.assigned(st[2], outer, sub)
+                Gen.assigned(st[3], outer, sub)
+                for x in sub:
+                    if x in local:
+                        die("assignment in a nested block to a variable declared in the enclosing assigning block")
+                    if x not in acc:
+                        acc.append(x)
+            else:
+                die("a block that assigns to a `let mut` variable may only contain let / assignment / nested `if` statements")
+        return acc
+
+    def tr_stmts(self, stmts, tail, env, kont=None, frozen=None):
+        """kont: what follows when control reaches the end of a block that has no value (a statement block); it returns a
+        closed (term, type, eff).  frozen: names that must not be re-bound in this block (the continuation sees them)"""
+        if tail is not None and tail[0] == "if" and P.is_stmt_if(tail):
+            stmts = list(stmts) + [("sif", tail[1], tail[2], tail[3])]
+            tail = None
         if not stmts:
+            if tail is None:
+                if kont is None:
+                    die("a block without a value where a value is needed")
+                t, ty, eff = kont()
+                return [], t, ty, eff
             return self.tr_tail(tail, env)
         st, rest = stmts[0], stmts[1:]
+        if st[0] == "assign":
+            v = env.get(st[1])
+            if v is None:
+                die("assignment to undeclared variable %s" % st[1])
+            if not (len(v) > 2 and v[2]):
+                die("assignment to %s, which is not declared `let mut`" % st[1])
+            st = ("let", st[1], st[2], {st[1]}, v[1])        # straight-line reassignment = shadowing (same type)
         if st[0] == "let":
-            pat, ex = st[1], st[2]
+            pat, ex, muts = st[1], st[2], st[3]
+            self.nontail += 1
             binds, t, ty, eff = self.tr(ex, env)
+            self.nontail -= 1
+            if ty == "lit":
+                ty = "Z"
+            if len(st) > 4 and not teq(ty, st[4]):
+                die("assignment changes the type of %s" % pat)
             env2 = dict(env)
             if isinstance(pat, list):
                 if not (isinstance(ty, tuple) and ty[0] == "tup" and len(ty[1]) == len(pat)):
@@ -1040,14 +1571,18 @@ class Gen:
                 names = [cname(p) for p in pat]
                 for p, x, pt in zip(pat, names, ty[1]):
                     self.noshadow(x)
-                    env2[p] = (x, pt)
+                    if frozen is not None and p in frozen:
+                        die("re-binding %s inside a block whose continuation is shared is outside the supported subset" % p)
+                    env2[p] = (x, pt, p in muts)
                 binder = "'(%s)" % ", ".join(names)
             else:
                 x = cname(pat)
                 self.noshadow(x)
-                env2[pat] = (x, ty)
+                if frozen is not None and pat in frozen and len(st) <= 4:
+                    die("re-binding %s inside a block whose continuation is shared is outside the supported subset" % pat)
+                env2[pat] = (x, ty, pat in muts)
                 binder = x
-            rt, rty, reff = self.close(self.tr_stmts(rest, tail, env2))
+            rt, rty, reff = self.close(self.tr_stmts(rest, tail, env2, kont, frozen))
             if eff:
                 return binds + [(binder, ty, t)], rt, rty, reff
             return binds, "(let %s := %s in %s)" % (binder, t, rt), rty, reff
@@ -1055,20 +1590,42 @@ class Gen:
             def ba(vs):
                 if vs[0][1] != "bool":
                     die("assert! on %s" % tshow(vs[0][1]))
-                rt, rty, reff = self.close(self.tr_stmts(rest, tail, env))
+                rt, rty, reff = self.close(self.tr_stmts(rest, tail, env, kont, frozen))
                 return "(if %s then %s else Panic)" % (vs[0][0], self.lift(rt, reff)), rty, True
             return self.seq([st[1]], env, ba)
-        if st[0] == "guard":
-            c, blk = st[1], st[2]
+        if st[0] == "sif":
+            c, blk_a, blk_b = st[1], st[2], st[3]
             if c[0] == "iflet":
                 die("statement-level `if let` is outside the supported subset")
-            if blk[1] or not (blk[2][0] in ("return", "panic")):
-                die("statement-level `if` whose body is not `return e;` / `div_zero!()` is outside the supported subset")
+            if self.has_assign(blk_a) or self.has_assign(blk_b):
+                # `if c { x = e1; } else { x = e2; }`  ->  let x = if c { e1 } else { e2 }   (several variables: a tuple)
+                vs_ = []
+                self.assigned(blk_a, env, vs_)
+                self.assigned(blk_b, env, vs_)
+                if frozen is not None:
+                    die("assignment inside a block whose continuation is shared is outside the supported subset")
+                val = ("var", vs_[0]) if len(vs_) == 1 else ("tuple", [("var", x) for x in vs_])
+
+                def conv(blk):
+                    if blk is None:
+                        return ("block", [], val)
+                    sts = list(blk[1])
+                    if blk[2] is not None:
+                        sts.append(("sif", blk[2][1], blk[2][2], blk[2][3]))
+                    return ("block", sts, val)
+                new = ("let", vs_[0] if len(vs_) == 1 else vs_, ("if", c, conv(blk_a), conv(blk_b)), set(vs_))
+                return self.tr_stmts([new] + list(rest), tail, env, kont, frozen)
+
+            def k2():
+                return self.close(self.tr_stmts(rest, tail, env, kont, frozen))
 
             def bg(vs):
                 if vs[0][1] != "bool":
                     die("`if` condition of type %s" % tshow(vs[0][1]))
-                (ta, tb), ty, eff = self.branches([self.close(self.tr_tail(blk[2], env)), self.close(self.tr_stmts(rest, tail, env))])
+                fz = set(env) | (frozen or set())
+                pa = self.close(self.tr_stmts(blk_a[1], blk_a[2], dict(env), k2, fz))
+                pb = k2() if blk_b is None else self.close(self.tr_stmts(blk_b[1], blk_b[2], dict(env), k2, fz))
+                (ta, tb), ty, eff = self.branches([pa, pb])
                 return "(if %s then %s else %s)" % (vs[0][0], ta, tb), ty, eff
             return self.seq([c], env, bg)
         die("cannot translate statement %r" % (st,))
@@ -1087,7 +1644,9 @@ def split_params(toks):
             p.eat()
             res.append(("self", "Self"))
         else:
-            pat = p.let_pattern()
+            pat, muts = p.let_pattern()
+            if muts:
+                die("`mut` parameter is outside the supported subset")
             p.eat(":")
             res.append((pat, p.type_()))
         if p.peek() == ",":
@@ -1136,13 +1695,20 @@ def translate_fn(path, S, name, params_src, ret_src, body_src):
     if bp.peek() is not None:
         die("trailing tokens after the function body")
     term, ty, eff = g.trc(body, env)
-    if not teq(ty, ret):
+    if isinstance(ty, tuple) and ty[0] == "ub":
+        # the whole body is `<option>.unwrap_unchecked()`: the function is generated at type option (None = UB, unmodelled)
+        if eff or not teq(ty[1], ret):
+            die("unwrap_unchecked: body type %s against the declared return type %s" % (tshow(ty[1]), tshow(ret)))
+        ret = ("opt", ret)
+    elif not teq(ty, ret):
         die("body has type %s but the declared return type is %s" % (tshow(ty), tshow(ret)))
     coq_ret = ("outcome (%s)" % tshow(ret)) if eff else tshow(ret)
-    sig = ("(dbg : bool) " if g.uses_dbg else "") + "(w : Z) " + " ".join(binders)
+    if g.uses_n and "n" in env:
+        die("needs N as a parameter but a variable is called n")
+    sig = ("(dbg : bool) " if g.uses_dbg else "") + "(w : Z) " + ("(n : nat) " if g.uses_n else "") + " ".join(binders)
     if term.startswith("(") and term.endswith(")") and balanced(term, 0, "(", ")") == len(term):
         term = term[1:-1]
-    text = "Definition %s %s : %s :=\n  %s%s.\n" % (gname, sig, coq_ret, "".join(prelude), term)
+    text = "Definition %s %s : %s :=\n  %s%s.\n" % (gname, sig.rstrip(), coq_ret, "".join(prelude), term)
     return gname, text
 
 
@@ -1156,21 +1722,41 @@ def main():
         CUR[0] = path
         if re.sub(r"\s+", "", text) not in re.sub(r"\s+", "", strip_comments(open(os.path.join(REPO, path)).read())):
             die("the macro expansion `%s` is no longer there" % text)
-    out = ["(* GENERATED on every run by tools/rs2v_glue.py from /repo/src (the one-line projection functions of",
-           "   buint/ bint/ int/ : checked, wrapping, saturating, strict, overflowing (non-loop forms), cmp, ops,",
-           "   bigint_helpers).  Do not edit.  Proofs/GlueTie.v proves each definition equal to the hand-written model. *)",
+    out = ["(* GENERATED on every run by tools/rs2v_glue.py from /repo/src (the non-loop functions of buint/ bint/ int/ :",
+           "   checked, wrapping, saturating, strict, overflowing, cmp, ops, bigint_helpers, mod, const_trait_fillers, unchecked,",
+           "   numtraits).  Do not edit.  Proofs/GlueTieC*.v prove each definition equal to the hand-written model. *)",
            "From Bnum Require Import Base Prim.",
            "From Bnum.Model Require Import Digit Core Shift AddSub Mul Div Bits Pow.", "", "Module Glue.", ""]
     count = {}
     seen = set()
     failed = {}
     group = sys.argv[sys.argv.index("--for") + 1] if "--for" in sys.argv else None
+    def emit(path, selfs, fns, alias):
+        for S in selfs:
+            for f in fns:
+                if f[0] in alias:
+                    gname = "%s_%s" % (S, alias[f[0]])
+                    try:
+                        gname, text = translate_fn(path, S, alias[f[0]], *f[1:])
+                    except (SystemExit, Exception) as ex:
+                        # this function only: a stub, so that only ITS tie lemma (and its property's check) breaks
+                        failed[gname] = LAST_MSG[0] if isinstance(ex, SystemExit) else repr(ex)
+                        text = "(* NOT TRANSLATED: %s *)\nDefinition %s : unit := tt.\n" % (
+                            failed[gname].replace("*)", "* )").replace("(*", "( *"), gname)
+                    if gname in seen:
+                        die("duplicate generated name " + gname)
+                    seen.add(gname)
+                    out.append(text)
+                    count[path] = count.get(path, 0) + 1
+
     for path, macro, selfs, wanted, skip in FILES:
         CUR[0] = path
         src = strip_comments(open(os.path.join(REPO, path)).read())
         region = macro_region(src, macro, path) if macro else src
         fns = find_fns(region, path)
         names = [f[0] for f in fns]
+        alias = dict((x, x) if isinstance(x, str) else x for x in wanted)       # source key -> name of the generated function
+        wanted = list(alias)
         for wn in wanted:
             if names.count(wn) != 1:
                 die("function %s found %d times in %s" % (wn, names.count(wn), "macro " + macro if macro else "the file"))
@@ -1184,25 +1770,41 @@ def main():
                     CUR[0] = "%s %s" % (path, n_)
                     die("listed in SKIP but no longer in the source")
         out.append("(* ---- %s%s ---- *)" % (path, (" (macro %s)" % macro) if macro else ""))
-        for S in selfs:
+        emit(path, selfs, fns, alias)
+    # ---- functions produced by helper macros (one expansion per listed invocation)
+    for dpath, mname, ipath, selfs, insts, skipped in INSTANCES:
+        CUR[0] = "%s (macro %s)" % (dpath, mname)
+        body = macro_arm_body(macro_region(strip_comments(open(os.path.join(REPO, dpath)).read()), mname, dpath), mname, dpath)
+        isrc = strip_comments(open(os.path.join(REPO, ipath)).read())
+        found = []
+        for m in re.finditer(r"(?<![\w$:])((?:\w+::)*)%s!\s*\(" % re.escape(mname), isrc):
+            if m.group(1).startswith("doc::"):                # the documentation macro of the same name
+                continue
+            found.append(re.sub(r"\s+", "", isrc[m.start():balanced(isrc, m.end() - 1, "(", ")")]))
+        listed = sorted(set([re.sub(r"\s+", "", x[0]) for x in insts] + [re.sub(r"\s+", "", x) for x in skipped]))
+        for f_ in found:
+            if f_ not in listed:
+                CUR[0] = "%s %s" % (ipath, f_)
+                die("invocation of an in-scope helper macro that the translator neither expands nor lists as skipped")
+        for l_ in listed:
+            if found.count(l_) != 1:
+                CUR[0] = "%s %s" % (ipath, l_)
+                die("listed macro invocation found %d times in the source" % found.count(l_))
+        out.append("(* ---- %s: expansions of %s! (defined in %s) ---- *)" % (ipath, mname, dpath))
+        for inv, subst, alias in insts:
+            CUR[0] = "%s %s" % (ipath, inv)
+            text = instantiate(body, subst, mname)
+            fns = find_fns(text, ipath)
             for f in fns:
-                if f[0] in wanted:
-                    gname = "%s_%s" % (S, f[0])
-                    try:
-                        gname, text = translate_fn(path, S, *f)
-                    except (SystemExit, Exception) as ex:
-                        # this function only: a stub, so that only ITS tie lemma (and its property's check) breaks
-                        failed[gname] = LAST_MSG[0] if isinstance(ex, SystemExit) else repr(ex)
-                        text = "(* NOT TRANSLATED: %s *)\nDefinition %s : unit := tt.\n" % (
-                            failed[gname].replace("*)", "* )").replace("(*", "( *"), gname)
-                    if gname in seen:
-                        die("duplicate generated name " + gname)
-                    seen.add(gname)
-                    out.append(text)
-                    count[path] = count.get(path, 0) + 1
+                if f[0] not in alias:
+                    die("the expansion defines %s, which the instance table does not name" % f[0])
+            for k_ in alias:
+                if [f[0] for f in fns].count(k_) != 1:
+                    die("the expansion does not define %s exactly once" % k_)
+            emit("%s %s" % (ipath, inv), selfs, fns, alias)
     out.append("End Glue.")
     txt = "\n".join(out) + "\n"
-    p = os.path.join(ROOT, "coq", "Generated", "Glue.v")
+    p = os.environ.get("RS2V_GLUE_OUT") or os.path.join(ROOT, "coq", "Generated", "Glue.v")
     if not os.path.exists(p) or open(p).read() != txt:
         open(p, "w").write(txt)
     if failed:
